@@ -93,25 +93,25 @@ type Invoker func(stub *Stub, chaincode, channel string, args [][]byte) pb.Respo
 
 // Stub implements shim.ChaincodeStubInterface for exactly one invocation.
 type Stub struct {
-	L         *Ledger
-	TxID      string
-	Channel   string
-	Args      [][]byte
-	Creator   []byte
+	L          *Ledger
+	TxID       string
+	Channel    string
+	Args       [][]byte
+	Creator    []byte
 	CreatorErr error
-	SP        *pb.SignedProposal
-	TS        *timestamp.Timestamp
-	Transient map[string][]byte
-	Invoker   Invoker
+	SP         *pb.SignedProposal
+	TS         *timestamp.Timestamp
+	Transient  map[string][]byte
+	Invoker    Invoker
 
-	mu        sync.Mutex
-	writes    map[string]*Write
-	order     []string
-	Event     *pb.ChaincodeEvent
-	VPWrites  map[string][]byte
+	mu         sync.Mutex
+	writes     map[string]*Write
+	order      []string
+	Event      *pb.ChaincodeEvent
+	VPWrites   map[string][]byte
 	PrivWrites []string // log "put coll key" / "del coll key" ...
-	Calls     []string // cross-chaincode call log
-	ReadKeys  []string
+	Calls      []string // cross-chaincode call log
+	ReadKeys   []string
 }
 
 var _ shim.ChaincodeStubInterface = (*Stub)(nil)
